@@ -164,7 +164,7 @@ class ProtoImporter:
                 # Import a VLSIR primitive to an ideal element, and convert its parameters
                 target = import_vlsir_primitive(ref.external)
                 remapped_params = import_primitive_params(target, params)
-                params = target.Params(**remapped_params)
+                params = target.Params(**import_literals(target, remapped_params))
 
             elif ref.external.domain in (
                 "hdl21.primitives",
@@ -172,7 +172,7 @@ class ProtoImporter:
             ):
                 # Retrieve the Primitive from `hdl21.primitives`, and convert its parameters
                 target = import_hdl21_primitive(ref.external)
-                params = target.Params(**params)
+                params = target.Params(**import_literals(target, params))
 
             else:  # Externally-defined `ExternalModule`
                 # These must be declared in our `Package` being imported. Look up its header-info from `ext_modules`.
@@ -385,6 +385,25 @@ def import_prefixed(vpref: vlsir.Prefixed) -> Prefixed:
         raise ValueError(f"Invalid Parameter Type: `{ptype}`")
 
     return Prefixed(number=number, prefix=prefix)
+
+
+def import_literals(target: Primitive, params: Dict[str, Any]) -> Dict[str, Any]:
+    """Wrap the string-valued `params` of `Scalar`-typed parameters of `target` as `Literal`s.
+    `Literal`s are exported as literal text, which comes back as a `str`.
+    Handed to a `Scalar` parameter as it is, text which looks like a number - `Literal("1000")` - would turn into that number."""
+    from typing import Optional as Opt
+    from ..scalar import Scalar
+    from ..literal import Literal
+
+    scalars = [
+        name
+        for name, param in target.Params.__params__.items()
+        if param.dtype in (Scalar, Opt[Scalar])
+    ]
+    return {
+        name: Literal(val) if name in scalars and isinstance(val, str) else val
+        for name, val in params.items()
+    }
 
 
 def import_primitive_params(
